@@ -85,8 +85,13 @@ impl Check for C06Check {
             }
             p
         };
-        let cfg = gen_search::sim_cfg(&mut st.schedule, 200_000);
+        let mut cfg = gen_search::sim_cfg(&mut st.schedule, 200_000);
         let oracle = if refint::is_infinite(&program) { "prefix-soundness" } else { "finite-multiset" };
+        if oracle == "prefix-soundness" {
+            // a starved or unproductive prefix is C07's business: do not burn the clock on it
+            cfg.quanta_budget = 12_000;
+            cfg.work_cap = 400_000;
+        }
         Case {
             property: "C06".into(),
             oracle: oracle.into(),
